@@ -95,15 +95,6 @@ pub fn c09_normalized_segments_dots_n10() {
     normalized_segments_dots::<10>()
 }
 
-// @h prop=C09,C12 tier=thorough kind=check timeout=5400 mem=26 bound="uri::Path text <= 6 bytes" encodes="same as c09_normalized_segments_n5"
-#[cfg_attr(kani, kani::proof)]
-#[cfg_attr(kani, kani::unwind(9))]
-#[cfg_attr(kani, kani::stub(smallvec::SmallVec::try_grow, crate::stubs::sv_try_grow))]
-#[cfg_attr(kani, kani::stub(smallvec::SmallVec::push, crate::stubs::sv_push))]
-pub fn c09_normalized_segments_n6() {
-    normalized_segments::<6>()
-}
-
 /// The result of a normalisation is exactly `prefix ++ rendering ++ suffix`
 /// where the rendering is that of the RFC 5.2.4 / Errata 4547 sequence of the
 /// old path (plus the empty segment left by a final dot segment when
@@ -149,24 +140,6 @@ pub fn c09_normalized_copy_n3() {
     normalized_copy::<3>()
 }
 
-// @h prop=C09 tier=thorough kind=check timeout=3600 mem=34 bound="uri::Path text <= 4 bytes" encodes="PathImpl::normalized;PathMutImpl::{symbolic_push,push,pop};to_path_buf"
-#[cfg_attr(kani, kani::proof)]
-#[cfg_attr(kani, kani::unwind(9))]
-#[cfg_attr(kani, kani::stub(std::vec::Vec::resize, crate::stubs::vec_resize))]
-#[cfg_attr(kani, kani::stub(<[u8]>::to_vec, crate::stubs::slice_to_vec))]
-pub fn c09_normalized_copy_n4() {
-    normalized_copy::<4>()
-}
-
-// @h prop=C09 tier=thorough kind=check timeout=2400 mem=20 bound="uri::Path text <= 5 bytes" encodes="PathImpl::normalized;PathMutImpl::{symbolic_push,push,pop};to_path_buf"
-#[cfg_attr(kani, kani::proof)]
-#[cfg_attr(kani, kani::unwind(12))]
-#[cfg_attr(kani, kani::stub(std::vec::Vec::resize, crate::stubs::vec_resize))]
-#[cfg_attr(kani, kani::stub(<[u8]>::to_vec, crate::stubs::slice_to_vec))]
-pub fn c09_normalized_copy_n5() {
-    normalized_copy::<5>()
-}
-
 fn normalize_in_place<const N: usize>() {
     let t = Text::<N>::any();
     let b = t.bytes();
@@ -189,28 +162,6 @@ fn normalize_in_place<const N: usize>() {
 #[cfg_attr(kani, kani::stub(smallvec::SmallVec::extend_from_slice, crate::stubs::sv_extend_from_slice))]
 pub fn c09_normalize_in_place_n3() {
     normalize_in_place::<3>()
-}
-
-// @h prop=C09,C04 tier=thorough kind=check timeout=3600 mem=34 bound="uri::PathBuf text <= 4 bytes" encodes="PathMutImpl::normalize;NormalizedSegmentsImpl::new;SmallVec<[u8;512]> push/extend_from_slice (stubbed, spill asserted unreachable);utils::replace"
-#[cfg_attr(kani, kani::proof)]
-#[cfg_attr(kani, kani::unwind(9))]
-#[cfg_attr(kani, kani::stub(std::vec::Vec::resize, crate::stubs::vec_resize))]
-#[cfg_attr(kani, kani::stub(smallvec::SmallVec::try_grow, crate::stubs::sv_try_grow))]
-#[cfg_attr(kani, kani::stub(smallvec::SmallVec::push, crate::stubs::sv_push))]
-#[cfg_attr(kani, kani::stub(smallvec::SmallVec::extend_from_slice, crate::stubs::sv_extend_from_slice))]
-pub fn c09_normalize_in_place_n4() {
-    normalize_in_place::<4>()
-}
-
-// @h prop=C09,C04 tier=thorough kind=check timeout=3000 mem=24 bound="uri::PathBuf text <= 5 bytes" encodes="PathMutImpl::normalize;NormalizedSegmentsImpl::new;SmallVec<[u8;512]> push/extend_from_slice (stubbed, spill asserted unreachable);utils::replace"
-#[cfg_attr(kani, kani::proof)]
-#[cfg_attr(kani, kani::unwind(10))]
-#[cfg_attr(kani, kani::stub(std::vec::Vec::resize, crate::stubs::vec_resize))]
-#[cfg_attr(kani, kani::stub(smallvec::SmallVec::try_grow, crate::stubs::sv_try_grow))]
-#[cfg_attr(kani, kani::stub(smallvec::SmallVec::push, crate::stubs::sv_push))]
-#[cfg_attr(kani, kani::stub(smallvec::SmallVec::extend_from_slice, crate::stubs::sv_extend_from_slice))]
-pub fn c09_normalize_in_place_n5() {
-    normalize_in_place::<5>()
 }
 
 /// Normalising the path of a URI reference never alters scheme, authority,
@@ -245,17 +196,6 @@ fn normalize_embedded<const N: usize>() {
 #[cfg_attr(kani, kani::stub(smallvec::SmallVec::extend_from_slice, crate::stubs::sv_extend_from_slice))]
 pub fn c09_normalize_embedded_n4() {
     normalize_embedded::<4>()
-}
-
-// @h prop=C09,C04 tier=thorough kind=check timeout=3000 mem=26 bound="UriRefBuf text <= 5 bytes" encodes="RiRefBufImpl::path_mut;PathMutImpl::normalize (embedded);utils::replace"
-#[cfg_attr(kani, kani::proof)]
-#[cfg_attr(kani, kani::unwind(10))]
-#[cfg_attr(kani, kani::stub(std::vec::Vec::resize, crate::stubs::vec_resize))]
-#[cfg_attr(kani, kani::stub(smallvec::SmallVec::try_grow, crate::stubs::sv_try_grow))]
-#[cfg_attr(kani, kani::stub(smallvec::SmallVec::push, crate::stubs::sv_push))]
-#[cfg_attr(kani, kani::stub(smallvec::SmallVec::extend_from_slice, crate::stubs::sv_extend_from_slice))]
-pub fn c09_normalize_embedded_n5() {
-    normalize_embedded::<5>()
 }
 
 fn iri_normalized_segments<const N: usize>() {
